@@ -5874,8 +5874,9 @@ moveto_node_check(const struct lyd_node *node, enum lyxp_node_type node_type, co
     }
 
     /* when check, accept the context node because it should only be the path ".", we have checked the when is valid before */
-    if (!(options & LYXP_IGNORE_WHEN) && lysc_has_when(schema) && !(node->flags & LYD_WHEN_TRUE) &&
-            (node != set->cur_node)) {
+    if (lysc_has_when(schema) && (node != set->cur_node) && ((node->flags & LYD_VAL_WHEN_WAS_TRUE) ||
+            (!(options & LYXP_IGNORE_WHEN) && !(node->flags & LYD_WHEN_TRUE)))) {
+        /* when not evaluated yet or being evaluated again right now */
         return LY_EINCOMPLETE;
     }
 
@@ -6374,7 +6375,8 @@ moveto_node_hash_child(struct lyxp_set *set, const struct lysc_node *scnode, con
         LY_CHECK_ERR_GOTO(r && (r != LY_ENOTFOUND), ret = r, cleanup);
 
         /* when check */
-        if (!(options & LYXP_IGNORE_WHEN) && sub && lysc_has_when(sub->schema) && !(sub->flags & LYD_WHEN_TRUE)) {
+        if (sub && lysc_has_when(sub->schema) && ((sub->flags & LYD_VAL_WHEN_WAS_TRUE) ||
+                (!(options & LYXP_IGNORE_WHEN) && !(sub->flags & LYD_WHEN_TRUE)))) {
             ret = LY_EINCOMPLETE;
             goto cleanup;
         }
